@@ -407,6 +407,35 @@ def r2(p, rep, lockinfo):
                     rep.add("C10.R2", f"{owner.qualname}.{name}:call({attr}.{n.func.attr})", f"{owner.module.rel}:{n.lineno}", ok, "owner uses the copy-on-write interface" if ok else "owner calls a private/mutating method on the shared snapshot")
 
 
+        # (e') the same protocol written inside the owner (a transaction: copy under the lock, work on the copy, publish
+        # it): a private / mutating snapshot method is called only on a local that is a fresh copy of the published
+        # snapshot made in this very method, and that copy is what gets published afterwards
+        lock = next(iter(lockinfo.get(owner.qualname, {}).get("locks", [])), None) if isinstance(lockinfo.get(owner.qualname), dict) else None
+        for name, f in owner.methods.items():
+            if name == "__init__" or not isinstance(f.node, ast.FunctionDef):
+                continue
+            s = self_name(f)
+            fresh, alias = set(), {}
+            for n in walk_no_nested(f.node):
+                if isinstance(n, ast.Assign) and len(n.targets) == 1 and isinstance(n.targets[0], ast.Name):
+                    if isinstance(n.value, ast.Call):
+                        r = resolve_callee(p, n.value, owner.module)
+                        if r and r[0] == "class" and r[1] is sc and len(n.value.args) == 1 and norm(n.value.args[0]) == f"{s}.{attr}":
+                            fresh.add(n.targets[0].id)
+                    elif isinstance(n.value, ast.Name):
+                        alias[n.targets[0].id] = n.value.id
+            def root(nm, d=0):
+                return nm if nm in fresh or d > 3 or nm not in alias else root(alias[nm], d + 1)
+            published = {norm(n.value) for n in walk_no_nested(f.node) if isinstance(n, ast.Assign) and any(norm(t) == f"{s}.{attr}" for t in n.targets)}
+            for n in walk_no_nested(f.node):
+                if isinstance(n, ast.Call) and isinstance(n.func, ast.Attribute) and isinstance(n.func.value, ast.Name) and n.func.value.id != s and n.func.attr in sc.methods and (n.func.attr.startswith("_") or n.func.attr in mutating):
+                    loc = root(n.func.value.id)
+                    if loc not in fresh and n.func.value.id not in alias:
+                        continue  # some other object that happens to have a method of that name
+                    ok = loc in fresh and any(root(pb) == loc for pb in published if pb.isidentifier())
+                    rep.add("C10.R2", f"{owner.qualname}.{name}:transaction({n.func.attr})", f"{owner.module.rel}:{n.lineno}", ok, f"`{norm(n.func)}` works on `{loc}`, a copy of the published snapshot made in this method, which is published afterwards" if ok else f"`{norm(n.func)}` mutates `{n.func.value.id}`, which is not a fresh copy of self.{attr} made in this method that is published afterwards: readers can see a half-updated snapshot or the update is lost")
+
+
 # ------------------------------------------------------------------------------------------
 
 # classes whose instances live for one compilation / one call only (checked: never instantiated at module level,
